@@ -47,7 +47,7 @@ OpStep(e) ==
 
 SweepStep(e) ==
     LET n    == e.name
-        box  == IF IsDim(st, n) THEN Box(Lo(st.base), st.dims[n]) ELSE {}
+        box  == DOMAIN st.val[n]            \* = Box(Lo(st.base), st.dims[n]) (Arrays!DomainOK), {} when not dimensioned
         I    == 1..Len(e.cells)
         seen == {e.cells[i][1] : i \in I}
         at(t) == IF t \in DOMAIN st.val[n] THEN st.val[n][t] ELSE -1
